@@ -190,7 +190,7 @@ fn case<G: CurveTag>(bytes: &[u8], col: &mut Collector, large: bool, wide: bool)
     if class == 5 {
         return own_prover_case::<G>(&mut chi, &prog, col);
     }
-    let p = run_prover::<G>(&prog, &ProveOpts { record: class == 4, ..Default::default() });
+    let p = run_prover::<G>(&prog, &ProveOpts { record: class == 4 || class <= 1, ..Default::default() });
     let Some(proof) = p.proof.as_ref() else {
         col.note("prover failed (left to C01)");
         return Ok(());
@@ -297,6 +297,22 @@ fn case<G: CurveTag>(bytes: &[u8], col: &mut Collector, large: bool, wide: bool)
     let hv: Vec<G> = gens.H(shape.padded(), 1).cloned().collect();
     let r: RefVerdict = ref_r1cs::<G>(&v.model, &p.commitments, &mirror, &pc.B, &pc.B_blinding, &gv, &hv, chv.as_ref());
     let what = || json!({"program": prog.to_json(), "proof_class": label, "reference": format!("{:?}", r), "real": v.verdict(), "proof_hex": hex::encode(&enc)});
+    // an unaltered proof of the crate's own prover: the transcript it was made on defines the
+    // challenges. If the relations hold under those and verify still rejects, the verifier
+    // rejects something the relations accept (it derived other challenges than the proof's)
+    if !real_accept && class <= 1 && v.panic.is_none() {
+        if let Some(chp) = extract_challenges::<G>(&p.log, p.main_id, p.challenges.len()) {
+            let rp = ref_r1cs::<G>(&p.model, &p.commitments, &mirror, &pc.B, &pc.B_blinding, &gv, &hv, Some(&chp));
+            if rp.accept() == Some(true) {
+                return Err(Failure::new(
+                    "C03:relations-hold-on-the-proofs-own-transcript:real-rejects",
+                    format!("the relations hold under the challenges of the transcript this unaltered proof was made on, but verify = {} ({})", v.verdict(), label),
+                    what(),
+                ));
+            }
+            col.class("checked-under-the-provers-challenges");
+        }
+    }
     match r.accept() {
         Some(ra) => {
             if ra != real_accept {
